@@ -378,3 +378,373 @@ theorem memo_store_bounded [DecidableEq K] (c : Cfg A K V) :
     exact ih _ (call_sync c s x h) (call_keys_bounded c s x hb)
 
 end DclabModel.C17
+
+namespace DclabModel.C17
+open DclabModel.Cache
+
+/-! ## 6. every eviction policy, `functools.lru_cache`, refinement of "no cache" -/
+
+/-- **History theorem for every sound eviction policy** (FIFO, LRU with hit reordering, …) and
+every capacity: if the key respects the function on the calls that are made (`H`), every history
+returns the values of the undecorated function. -/
+theorem evict_history_correct [DecidableEq K] (e : Evict K V) (he : e.Sound) (c : Cfg A K V)
+    (H : A → Prop) (hinj : ∀ a b, H a → H b → c.enc a = c.enc b → c.f a = c.f b) :
+    ∀ (hist : List A), (∀ a ∈ hist, H a) → ∀ s, TInv c H s →
+      (trun e c s hist).2 = hist.map c.f ∧ TInv c H (trun e c s hist).1 := by
+  intro hist
+  induction hist with
+  | nil => intro _ s h; exact ⟨rfl, h⟩
+  | cons x xs ih =>
+    intro hH s h
+    obtain ⟨h1, h2⟩ := tcall_correct e he c H hinj s x (hH x (by simp)) h
+    obtain ⟨h3, h4⟩ := ih (fun a ha => hH a (by simp [ha])) _ h2
+    simp only [trun, List.map_cons]
+    exact ⟨by rw [h1, h3], h4⟩
+
+/-- `functools.lru_cache(maxsize=cap)` for every `cap` (also 0 = nothing stored): every history
+of calls, whatever is evicted and however hits reorder the table, returns `f(args)` -/
+theorem lru_history_correct [DecidableEq K] (c : Cfg A K V)
+    (hinj : ∀ a b, c.enc a = c.enc b → c.f a = c.f b) (hist : List A) :
+    (trun lru c [] hist).2 = hist.map c.f :=
+  (evict_history_correct lru lru_sound c (fun _ => True) (fun a b _ _ h => hinj a b h) hist
+    (fun _ _ => trivial) [] (by intro k v h; cases h)).1
+
+theorem lru_size_bounded [DecidableEq K] (c : Cfg A K V) :
+    ∀ (hist : List A) (s : List (K × V)), s.length ≤ c.cap →
+      (trun lru c s hist).1.length ≤ c.cap := by
+  intro hist
+  induction hist with
+  | nil => intro s h; exact h
+  | cons x xs ih =>
+    intro s h
+    simp only [trun]
+    apply ih
+    unfold tcall
+    cases hl : lookup (c.enc x) s with
+    | some v =>
+      simp only [lru, List.length_append, List.length_singleton]
+      have := erase_length_lt _ _ _ hl
+      omega
+    | none => exact pushCap_length _ _ _ _
+
+/-- the key must respect the function: with a key that forgets the argument a table of any
+policy returns the other call's value -/
+theorem stale_without_key_respect :
+    (trun lru ({ f := id, enc := fun _ => 0, cap := 1 } : Cfg Nat Nat Nat) [] [1, 2]).2 = [1, 1] := by
+  decide
+
+/-- hit reordering is really modelled: with capacity 2 the history 1 2 1 3 1 ends with a hit under
+LRU (the hit on 1 made 2 the victim) and with a miss under FIFO -/
+theorem lru_differs_from_fifo :
+    thits lru ({ f := id, enc := id, cap := 2 } : Cfg Nat Nat Nat) [] [1, 2, 1, 3, 1]
+      = [false, false, true, false, true] ∧
+    thits fifo ({ f := id, enc := id, cap := 2 } : Cfg Nat Nat Nat) [] [1, 2, 1, 3, 1]
+      = [false, false, true, false, false] := by
+  decide
+
+/-- forward simulation between state machines over the same calls and results -/
+def Refines (m : Machine S A V) (spec : Machine T A V) : Prop :=
+  ∃ R : S → T → Prop, R m.init spec.init ∧
+    ∀ s t a, R s t → (m.step s a).2 = (spec.step t a).2 ∧ R (m.step s a).1 (spec.step t a).1
+
+/-- a refinement has the same observable trace for every history -/
+theorem refines_run (m : Machine S A V) (spec : Machine T A V) (h : Refines m spec)
+    (hist : List A) : m.run m.init hist = spec.run spec.init hist := by
+  obtain ⟨R, h0, hstep⟩ := h
+  have key : ∀ (hist : List A) s t, R s t → m.run s hist = spec.run t hist := by
+    intro hist
+    induction hist with
+    | nil => intro s t _; rfl
+    | cons a as ih =>
+      intro s t hr
+      obtain ⟨h1, h2⟩ := hstep s t a hr
+      simp only [Machine.run]
+      rw [h1, ih _ _ h2]
+  exact key hist _ _ h0
+
+/-- **the FIFO table of `dclab.cached.Cache` refines "no cache"**, for every capacity -/
+theorem fifo_refines_noCache [DecidableEq K] (c : Cfg A K V)
+    (hinj : ∀ a b, c.enc a = c.enc b → c.f a = c.f b) : Refines (fifoM c) (noCache c.f) :=
+  ⟨fun s _ => Inv c s, (by intro k v h; cases h), fun s _ a hr => call_correct c hinj s a hr⟩
+
+/-- **every sound table — in particular the LRU table — refines "no cache"**, for every capacity -/
+theorem table_refines_noCache [DecidableEq K] (e : Evict K V) (he : e.Sound) (c : Cfg A K V)
+    (hinj : ∀ a b, c.enc a = c.enc b → c.f a = c.f b) : Refines (tableM e c) (noCache c.f) :=
+  ⟨fun s _ => TInv c (fun _ => True) s, (by intro k v h; cases h),
+   fun s _ a hr => tcall_correct e he c _ (fun a b _ _ h => hinj a b h) s a trivial hr⟩
+
+theorem lru_refines_noCache [DecidableEq K] (c : Cfg A K V)
+    (hinj : ∀ a b, c.enc a = c.enc b → c.f a = c.f b) : Refines (tableM lru c) (noCache c.f) :=
+  table_refines_noCache lru lru_sound c hinj
+
+example : (noCache (fun n : Nat => n + 1)).run () [1, 5] = [2, 6] := by decide
+
+/-! ## 7. the file-monitoring cache over a file system -/
+
+theorem fileCfg_respects (h : List Nat → Ar → V) (cap : Nat) (C : List (FCall P Ar))
+    (hC : StampOK C) (a b : FCall P Ar) (ha : a ∈ C) (hb : b ∈ C)
+    (hk : (fileCfg h cap).enc a = (fileCfg h cap).enc b) :
+    (fileCfg h cap).f a = (fileCfg h cap).f b := by
+  obtain ⟨p, f, ar⟩ := a
+  obtain ⟨p', f', ar'⟩ := b
+  simp only [fileCfg, Prod.mk.injEq] at hk
+  obtain ⟨hp, hs, har⟩ := hk
+  have := hC _ ha _ hb hp hs
+  simp only at this
+  simp only [fileCfg, this, har]
+
+theorem fs_cache_sound_gen [DecidableEq P] [DecidableEq Sp] [DecidableEq Ar]
+    (e : Evict (P × (Nat × Nat) × Ar) V) (he : e.Sound) (h : List Nat → Ar → V) (cap : Nat)
+    (C : List (FCall P Ar)) (hC : StampOK C) :
+    ∀ (ops : List (FsOp P Sp Ar)) (st : FsSt P Sp) (t : List ((P × (Nat × Nat) × Ar) × V)),
+      (∀ a ∈ fsCalls st ops, a ∈ C) → TInv (fileCfg h cap) (· ∈ C) t →
+      fsRun e h cap st t ops = fsSpec h st ops := by
+  intro ops
+  induction ops with
+  | nil => intro st t _ _; rfl
+  | cons op ops ih =>
+    intro st t hsub hinv
+    cases op with
+    | hash sp ar =>
+      simp only [fsRun, fsSpec]
+      cases hf : st.files (st.res sp) with
+      | none =>
+        simp only [Option.map_none]
+        rw [ih st t (by simpa [fsCalls, hf] using hsub) hinv]
+      | some f =>
+        have hmem : (st.res sp, f, ar) ∈ C := hsub _ (by simp [fsCalls, hf])
+        obtain ⟨h1, h2⟩ := tcall_correct e he (fileCfg h cap) (· ∈ C)
+          (fun a b ha hb => fileCfg_respects h cap C hC a b ha hb) t _ hmem hinv
+        simp only [Option.map_some]
+        rw [h1, ih st _ (fun a ha => hsub a (by simp [fsCalls, hf, ha])) h2]
+        rfl
+    | write p b m => simp only [fsRun, fsSpec]; exact ih _ t (by simpa [fsCalls] using hsub) hinv
+    | remove p => simp only [fsRun, fsSpec]; exact ih _ t (by simpa [fsCalls] using hsub) hinv
+    | rebind sp p => simp only [fsRun, fsSpec]; exact ih _ t (by simpa [fsCalls] using hsub) hinv
+
+/-- **Soundness of `file_monitoring_lru_cache`.**  For every history of rewrites, removals,
+`chdir`s / re-targeted links and memoised calls, every eviction policy and capacity: if, among
+the moments at which a file is hashed, equal (mtime, size) stamps of the same resolved file go
+with equal bytes (`StampOK`), every call returns what the undecorated function returns on the
+file as it is at call time (and raises exactly when the path does not exist). -/
+theorem fs_cache_sound [DecidableEq P] [DecidableEq Sp] [DecidableEq Ar]
+    (e : Evict (P × (Nat × Nat) × Ar) V) (he : e.Sound) (h : List Nat → Ar → V) (cap : Nat)
+    (st : FsSt P Sp) (ops : List (FsOp P Sp Ar)) (hok : StampOK (fsCalls st ops)) :
+    fsRun e h cap st [] ops = fsSpec h st ops :=
+  fs_cache_sound_gen e he h cap _ hok ops st [] (fun _ h => h) (by intro k v h; cases h)
+
+/-- `util.hashfile`: lru table, `maxsize = 100`, value = md5 of `hashedBytes` -/
+theorem hashfile_cache_sound [DecidableEq P] [DecidableEq Sp] (md5 : List Nat → D)
+    (st : FsSt P Sp) (ops : List (FsOp P Sp (Option (Nat × Nat)))) (hok : StampOK (fsCalls st ops)) :
+    fsRun lru (fun b ar => md5 (hashedBytes b ar)) 100 st [] ops
+      = fsSpec (fun b ar => md5 (hashedBytes b ar)) st ops :=
+  fs_cache_sound lru lru_sound _ 100 st ops hok
+
+/-- **outside the assumption** (documented limit of the design, not a defect): a rewrite that
+keeps size and mtime is served the old value -/
+theorem same_stamp_rewrite_is_stale :
+    fsRun lru (fun b (_ : Unit) => b) 100 (⟨fun _ => none, fun _ => 0⟩ : FsSt Nat Nat) []
+        [.write 0 [1] 5, .hash 0 (), .write 0 [2] 5, .hash 0 ()] = [some [1], some [1]] ∧
+    fsSpec (fun b (_ : Unit) => b) (⟨fun _ => none, fun _ => 0⟩ : FsSt Nat Nat)
+        [.write 0 [1] 5, .hash 0 (), .write 0 [2] 5, .hash 0 ()] = [some [1], some [2]] := by
+  decide
+
+/-- non-vacuity: two files with the same stamp behind one spelling (a link that is re-targeted)
+are told apart, because the key holds the resolved path -/
+example :
+    fsRun lru (fun b (_ : Unit) => b) 100 (⟨fun _ => none, fun _ => 0⟩ : FsSt Nat Nat) []
+        [.write 0 [1] 5, .write 1 [2] 5, .hash 7 (), .rebind 7 1, .hash 7 (), .hash 8 (),
+         .remove 0, .hash 8 ()]
+      = [some [1], some [2], some [1], none] := by
+  decide
+
+end DclabModel.C17
+
+namespace DclabModel.C17
+open DclabModel.Cache
+
+/-! ## 8. ownership: results that do not alias the cache entry cannot be corrupted -/
+
+/-- stored objects hold the function value; ids are allocated; under `readOnly` every stored
+object is write-protected, under `copy` no stored object was ever handed out -/
+structure OInv (p : Policy) (c : Cfg A K (List Nat)) (s : OSt K) : Prop where
+  val : ∀ k id, (k, id) ∈ s.table → ∃ a, c.enc a = k ∧ (s.heap id).data = c.f a
+  tlt : ∀ k id, (k, id) ∈ s.table → id < s.next
+  olt : ∀ id, id ∈ s.out → id < s.next
+  ro  : p = .readOnly → ∀ k id, (k, id) ∈ s.table → (s.heap id).writeable = false
+  own : p = .copy → ∀ k id, (k, id) ∈ s.table → id ∉ s.out
+
+theorem oinit_inv (p : Policy) (c : Cfg A K (List Nat)) : OInv p c (oinit : OSt K) where
+  val := by intro k id h; cases h
+  tlt := by intro k id h; cases h
+  olt := by intro id h; cases h
+  ro := by intro _ k id h; cases h
+  own := by intro _ k id h; cases h
+
+theorem ostore_inv [DecidableEq K] (p : Policy) (c : Cfg A K (List Nat))
+    (hinj : ∀ a b, c.enc a = c.enc b → c.f a = c.f b) (s : OSt K) (a : A) (h : OInv p c s) :
+    OInv p c (ostore p c s a).1 ∧ (ostore p c s a).2 < (ostore p c s a).1.next ∧
+      ((ostore p c s a).1.heap (ostore p c s a).2).data = c.f a := by
+  unfold ostore
+  cases hl : lookup (c.enc a) s.table with
+  | some id =>
+    simp only
+    have hm := lookup_mem hl
+    obtain ⟨b, hb1, hb2⟩ := h.val _ _ hm
+    exact ⟨h, h.tlt _ _ hm, by rw [hb2]; exact hinj b a hb1⟩
+  | none =>
+    simp only
+    refine ⟨?_, by omega, by simp [upd]⟩
+    have old : ∀ k id, (k, id) ∈ pushCap c.cap s.table (c.enc a) s.next →
+        (k, id) = (c.enc a, s.next) ∨ (k, id) ∈ s.table := fun k id hm => mem_pushCap hm
+    constructor
+    · intro k id hm
+      rcases old k id hm with h1 | h1
+      · cases h1; exact ⟨a, rfl, by simp [upd]⟩
+      · obtain ⟨b, hb1, hb2⟩ := h.val k id h1
+        have := h.tlt k id h1
+        exact ⟨b, hb1, by simp only [upd]; rw [if_neg (by omega)]; exact hb2⟩
+    · intro k id hm
+      rcases old k id hm with h1 | h1
+      · cases h1; simp
+      · have := h.tlt k id h1; simp only; omega
+    · intro id hm
+      have := h.olt id hm; simp only; omega
+    · intro hp k id hm
+      rcases old k id hm with h1 | h1
+      · cases h1; subst hp; simp [upd]
+      · have := h.tlt k id h1
+        simp only [upd]; rw [if_neg (by omega)]; exact h.ro hp k id h1
+    · intro hp k id hm
+      rcases old k id hm with h1 | h1
+      · cases h1; intro hin; have := h.olt _ hin; omega
+      · exact h.own hp k id h1
+
+theorem handOut_inv (p : Policy) (c : Cfg A K (List Nat)) (s : OSt K) (sid : Nat)
+    (h : OInv p c s) (hs : sid < s.next) :
+    OInv p c (handOut p s sid).1 ∧ ∃ id, (handOut p s sid).2 = .val id (s.heap sid).data := by
+  have plain : OInv p c { s with out := s.out ++ [sid] } ∨ p = .copy := by
+    by_cases hp : p = .copy
+    · exact Or.inr hp
+    · left
+      exact { val := h.val, tlt := h.tlt,
+              olt := by
+                intro id hm
+                rcases List.mem_append.mp hm with h1 | h1
+                · exact h.olt id h1
+                · have : id = sid := by simpa using h1
+                  rw [this]; exact hs
+              ro := h.ro, own := fun hc => absurd hc hp }
+  cases p with
+  | copy =>
+    refine ⟨?_, ⟨_, rfl⟩⟩
+    simp only [handOut]
+    constructor
+    · intro k id hm
+      obtain ⟨b, hb1, hb2⟩ := h.val k id hm
+      have := h.tlt k id hm
+      exact ⟨b, hb1, by simp only [upd]; rw [if_neg (by omega)]; exact hb2⟩
+    · intro k id hm; have := h.tlt k id hm; simp only; omega
+    · intro id hm
+      rcases List.mem_append.mp hm with h1 | h1
+      · have := h.olt id h1; simp only; omega
+      · have : id = s.next := by simpa using h1
+        simp only; omega
+    · intro hp; cases hp
+    · intro _ k id hm hin
+      rcases List.mem_append.mp hin with h1 | h1
+      · exact h.own rfl k id hm h1
+      · have : id = s.next := by simpa using h1
+        have := h.tlt k id hm; omega
+  | alias =>
+    rcases plain with h1 | h1
+    · exact ⟨h1, ⟨_, rfl⟩⟩
+    · cases h1
+  | readOnly =>
+    rcases plain with h1 | h1
+    · exact ⟨h1, ⟨_, rfl⟩⟩
+    · cases h1
+
+theorem poke_inv [DecidableEq K] (p : Policy) (hp : p ≠ .alias) (c : Cfg A K (List Nat)) (s : OSt K)
+    (r i v : Nat) (h : OInv p c s) : OInv p c (ostep p c s (.poke r i v)).1 := by
+  simp only [ostep]
+  cases hr : s.out[r]? with
+  | none => exact h
+  | some id =>
+    simp only
+    by_cases hw : (s.heap id).writeable = true
+    · simp only [hw, if_true]
+      have hin : id ∈ s.out := List.mem_of_getElem? hr
+      have ne : ∀ k id', (k, id') ∈ s.table → id' ≠ id := by
+        intro k id' hm e
+        subst e
+        cases p with
+        | alias => exact hp rfl
+        | readOnly => have := h.ro rfl k _ hm; rw [this] at hw; cases hw
+        | copy => exact h.own rfl k _ hm hin
+      constructor
+      · intro k id' hm
+        obtain ⟨b, hb1, hb2⟩ := h.val k id' hm
+        exact ⟨b, hb1, by simp only [upd]; rw [if_neg (ne k id' hm)]; exact hb2⟩
+      · exact h.tlt
+      · exact h.olt
+      · intro hq k id' hm
+        simp only [upd]; rw [if_neg (ne k id' hm)]; exact h.ro hq k id' hm
+      · exact h.own
+    · simp only [hw]
+      exact h
+
+/-- **Mutation isolation.**  If memoised results are handed out write-protected or as fresh
+copies, then for every history of calls and in-place writes into any earlier result (any
+interleaving, any eviction) every call returns exactly the value of the undecorated function. -/
+theorem memo_mutation_isolated [DecidableEq K] (p : Policy) (hp : p ≠ .alias)
+    (c : Cfg A K (List Nat)) (hinj : ∀ a b, c.enc a = c.enc b → c.f a = c.f b) :
+    ∀ (ops : List (OOp A)) (s : OSt K), OInv p c s → ovals (orun p c s ops) = ospec c.f ops := by
+  intro ops
+  induction ops with
+  | nil => intro s _; rfl
+  | cons op ops ih =>
+    intro s h
+    cases op with
+    | call a =>
+      obtain ⟨h1, h2, h3⟩ := ostore_inv p c hinj s a h
+      obtain ⟨h4, id, h5⟩ := handOut_inv p c _ _ h1 h2
+      simp only [orun, ostep, ospec, h5, ovals, h3]
+      rw [ih _ h4]
+    | poke r i v =>
+      have h1 := poke_inv p hp c s r i v h
+      simp only [orun, ospec]
+      rw [← ih _ h1]
+      cases ho : (ostep p c s (.poke r i v)).2 with
+      | val id xs =>
+        exfalso
+        simp only [ostep] at ho
+        split at ho
+        · cases ho
+        · split at ho <;> cases ho
+      | ok => rfl
+      | readOnlyError => rfl
+      | noResult => rfl
+
+theorem memo_mutation_isolated_fresh [DecidableEq K] (p : Policy) (hp : p ≠ .alias)
+    (c : Cfg A K (List Nat)) (hinj : ∀ a b, c.enc a = c.enc b → c.f a = c.f b)
+    (ops : List (OOp A)) : ovals (orun p c oinit ops) = ospec c.f ops :=
+  memo_mutation_isolated p hp c hinj ops _ (oinit_inv p c)
+
+/-- **the witness for `alias`** (today's `dclab.cached.Cache` when a memoised function is called
+directly, e.g. `downsampling.downsample_grid`): writing into the result changes what the next
+identical call returns -/
+theorem alias_result_corrupts_cache :
+    ovals (orun .alias ({ f := fun n => [n, n], enc := id, cap := 100 } : Cfg Nat Nat (List Nat)) oinit
+      [.call 3, .poke 0 1 9, .call 3]) = [some [3, 3], none, some [3, 9]] := by
+  decide
+
+example : ovals (orun .copy ({ f := fun n => [n, n], enc := id, cap := 100 } : Cfg Nat Nat (List Nat)) oinit
+      [.call 3, .poke 0 1 9, .call 3]) = [some [3, 3], none, some [3, 3]] := by
+  decide
+
+example : orun .readOnly ({ f := fun n => [n, n], enc := id, cap := 100 } : Cfg Nat Nat (List Nat)) oinit
+      [.call 3, .poke 0 1 9, .call 3] = [.val 0 [3, 3], .readOnlyError, .val 0 [3, 3]] := by
+  decide
+
+end DclabModel.C17
